@@ -638,6 +638,49 @@ solo: {}", i, k, a.get(k).cloned().unwrap_or_default(), b.get(k).cloned().unwrap
             }
         }
     }
+    // C20, "a pure query": the same history with every braille query replaced by a call that does nothing must leave
+    // the same results for all other calls and the same final state (a delayed effect of a query - e.g. on what the
+    // session holds after the preference files are re-read - shows in no before/after snapshot around the query)
+    if trace.checker == "C20" && trace.sessions.len() == 1 && out.harness_error.is_none() && out.violations.is_empty() && trace.injections.is_empty() && trace.pre_call_env.is_empty()
+        && trace.sessions[0].iter().any(|s| matches!(s, Step::Check { kind, .. } if kind == "final_observe"))
+        && !trace.sessions[0].iter().any(|s| matches!(s, Step::Env(EnvEvent::Fault { .. })))
+    {
+        let mut control = trace.clone();
+        let mut n_queries = 0;
+        for st in control.sessions[0].iter_mut() {
+            if matches!(st, Step::Call(op) if props::c20::is_query(op)) {
+                *st = Step::Call(Op::GetVersion);
+                n_queries += 1;
+            }
+        }
+        if n_queries > 0 {
+            let co = execute(&control, ctx);
+            out.stats.ref_sessions += 1;
+            if let Some(e) = co.harness_error {
+                out.harness_error = Some(e);
+                return out;
+            }
+            let is_q = |x: &String| x.starts_with("get_braille") || x.starts_with("get_navigation_node_from_braille_position") || x.starts_with("get_version");
+            let a: Vec<String> = out.observed.first().cloned().unwrap_or_default().into_iter().filter(|x| !is_q(x)).collect();
+            let b: Vec<String> = co.observed.first().cloned().unwrap_or_default().into_iter().filter(|x| !is_q(x)).collect();
+            let diff = (0..a.len().max(b.len())).find(|&k| a.get(k) != b.get(k));
+            match diff {
+                Some(k) => {
+                    let name = a.get(k).or(b.get(k)).map(|x| x.split(':').next().unwrap_or("").to_string()).unwrap_or_default();
+                    out.violations.push(Violation {
+                        property: trace.property.clone(),
+                        class: "query-changed-later-state".into(),
+                        sig: format!("{} differs from the same history without the braille queries", name),
+                        group: "differs from the same history without the queries".into(),
+                        detail: format!("with the queries:    {}\nwithout the queries: {}", a.get(k).cloned().unwrap_or_default(), b.get(k).cloned().unwrap_or_default()),
+                        session: 0,
+                        step: k,
+                    });
+                }
+                None => *out.stats.probes.entry("same_as_history_without_queries".into()).or_insert(0) += 1,
+            }
+        }
+    }
     out
 }
 
